@@ -134,3 +134,22 @@ package ecs
 //@   ensures range: 0 <= result && result <= 64
 //@   ensures zero: (result == 0) == (forall i uint8 :: !m64has(*b, i))
 //@   modifies nothing
+
+// ---- relation between the two mask widths (C20) ----------------------------------------------
+//
+// A 64-bit mask and a 256-bit mask are related when the first word of the wide mask equals the
+// narrow mask and the other words are zero. Related masks have the same set-of-bits view; since
+// every method of both types is proved against that view with the same formulas, the two
+// builds agree on all masks built from ids < 64.
+
+//@ pred maskRel(a bitMask64, b bitMask256) := b.bits[0] == a.bits && b.bits[1] == 0 && b.bits[2] == 0 && b.bits[3] == 0
+
+//@ lemma maskRelView(a bitMask64, b bitMask256) serves C20 :=
+//@   maskRel(a, b) ==> (forall i uint8 :: m256has(b, i) == m64has(a, i))
+
+//@ lemma maskViewRel(a bitMask64, b bitMask256) serves C20 :=
+//@   (forall i uint8 :: m256has(b, i) == m64has(a, i)) ==> maskRel(a, b)
+
+//@ lemma maskNotRel(a bitMask64, b bitMask256, m bitMask64, n bitMask256) serves C20 :=
+//@   maskRel(a, b) && maskRel(m, n) ==>
+//@     ((exists i uint8 :: m64has(m, i) && !m64has(a, i)) == (exists i uint8 :: m256has(n, i) && !m256has(b, i)))
